@@ -392,10 +392,29 @@ class Gen:
                 # statements that run while the text between the markers is rendered: the next section's
                 # choices (conditions, interpolated texts) must see their effect
                 out += [f"@if jn >= {r.randint(0, 1)}:", "    ~ jn = jn + " + str(r.randint(1, 2)),
-                        "    Counted {jn}", "@endif"]
+                        "    Counted {jn}"]
+                if r.random() < 0.5:
+                    # a choice inside a block of a LATER section (F10d): produced by the rendering of the text
+                    # between the markers, offered after the passage-level choices of that section
+                    t = self.target()
+                    mark = "*" if r.random() < self.p.one_time else "+"
+                    out.append(f"    {mark} [In block {{jn}}] -> {t}{self.call_args(t)}")
+                    self.tag("join-section-block-choice")
+                if r.random() < 0.3:
+                    # directives of the section text: an @input is reported as an input directive, a @render stays
+                    # a render directive (both after those of the chosen choice's own block)
+                    out.append("    " + r.choice([f'@input name="sec{sec + 1}"', "@render panel(jn)"]))
+                    self.tag("join-section-block-directive")
+                out.append("@endif")
                 self.tag("join-section-block-stmt")
             if r.random() < 0.25:
-                out += ["@for q in [1, 2]:", "    ~ jn = jn + q", "@endfor"]
+                out += ["@for q in [1, 2]:", "    ~ jn = jn + q"]
+                if r.random() < 0.6:
+                    # ... and a loop choice there: one per item, its text rendered while the loop runs
+                    t = self.target()
+                    out.append(f"    + [Loop pick {{q}} of {sec + 1}] -> {t}{self.call_args(t)}")
+                    self.tag("join-section-loop-choice")
+                out.append("@endfor")
             if r.random() < 0.3:
                 out.append("~ n = n + 1")
         out.append(self.choice_line())
